@@ -225,14 +225,19 @@ func readNDJSON(path string) ([]Case, error) {
 // Execute runs the cases through vdrive child processes (one per shard, restarted after a crash or
 // a time-out) and returns one trace per case, in order.
 func Execute(env *Env, bin string, cases []Case, budget time.Duration, tag string) ([]Case, error) {
+	return ExecuteEnv(env, bin, cases, budget, tag, nil, 16)
+}
+
+// ExecuteEnv is Execute with extra environment variables for the driver and a bound on the number of shards.
+func ExecuteEnv(env *Env, bin string, cases []Case, budget time.Duration, tag string, extraEnv []string, maxShards int) ([]Case, error) {
 	if len(cases) == 0 {
 		return nil, nil
 	}
 	if budget == 0 {
 		budget = 5 * time.Second
 	}
-	nshard := 16
-	if len(cases) < 64 {
+	nshard := maxShards
+	if len(cases) < 4*maxShards {
 		nshard = (len(cases) + 3) / 4
 	}
 	if nshard < 1 {
@@ -249,7 +254,7 @@ func Execute(env *Env, bin string, cases []Case, budget time.Duration, tag strin
 		wg.Add(1)
 		go func(si int) {
 			defer wg.Done()
-			results[si], errs[si] = executeShard(env, bin, shards[si], budget, fmt.Sprintf("%s-%d", tag, si))
+			results[si], errs[si] = executeShard(env, bin, shards[si], budget, fmt.Sprintf("%s-%d", tag, si), extraEnv)
 		}(si)
 	}
 	wg.Wait()
@@ -273,7 +278,7 @@ func Execute(env *Env, bin string, cases []Case, budget time.Duration, tag strin
 	return out, nil
 }
 
-func executeShard(env *Env, bin string, cases []Case, budget time.Duration, tag string) ([]Case, error) {
+func executeShard(env *Env, bin string, cases []Case, budget time.Duration, tag string, extraEnv []string) ([]Case, error) {
 	in := filepath.Join(env.Tmp, "cases-"+tag+".ndjson")
 	out := filepath.Join(env.Tmp, "traces-"+tag+".ndjson")
 	prog := filepath.Join(env.Tmp, "progress-"+tag)
@@ -291,6 +296,7 @@ func executeShard(env *Env, bin string, cases []Case, budget time.Duration, tag 
 		var stderr bytes.Buffer
 		cmd.Stderr = &stderr
 		cmd.Stdout = &stderr
+		cmd.Env = append(os.Environ(), extraEnv...)
 		err := cmd.Run()
 		if err == nil {
 			break
